@@ -241,7 +241,7 @@ Definition fact_chains (p : lop) : list (list step * lop) :=
 Definition k_fact_missing_level (st : store) (p : lop) : bool :=
   existsb (fun c => match run (opts_engine false) st (snd c) with
                     | Ok b => match fact_chain st b (fst c) with
-                              | Ok (lvls, _) => negb (Nat.eqb (List.length lvls) (List.length (fst c)))
+                              | Ok (added, _) => negb (Nat.eqb added (List.length (fst c)))
                                                 && negb (match rows b with [] => true | _ => false end)
                               | Err => true
                               end
@@ -252,6 +252,51 @@ Definition k_fact_type_case (st : store) (p : lop) : bool :=
   existsb (fun c => existsb (fun s => match s_type s with
                                       | Some t => existsb (fun e => eq_ci (etype e) t && negb (String.eqb (etype e) t)) (edges st)
                                       | None => false end) (tl (fst c))) (fact_chains p).
+(** C10-K7: a later step of a factorized chain does not start at the previous step's target (two
+    sibling expansions of one node): the factorized operator expands the previous target anyway *)
+Fixpoint not_a_path (prev_to : option string) (ss : list step) : bool :=
+  match ss with
+  | [] => false
+  | s :: r => (match prev_to with Some t => negb (String.eqb t (s_from s)) | None => false end)
+              || not_a_path (nth_error (s_cols s) 1) r
+  end.
+Definition k_fact_not_path (p : lop) : bool :=
+  existsb (fun c => not_a_path None (fst c)) (fact_chains p).
 Definition k_c10_any (st : store) (p : lop) : bool :=
   k_zone_edge st p || k_index_residual st p || k_index_num st p || k_range_num st p
-  || k_fact_missing_level st p || k_fact_type_case st p.
+  || k_fact_missing_level st p || k_fact_type_case st p || k_fact_not_path p.
+
+(** C08-K11: a FilterOperator directly on top of another one (a labelled target or inline property
+    filter under the WHERE filter): the outer predicate is evaluated over all physical rows and its
+    selection replaces the inner one *)
+Definition k11_stacked_filters (p : lop) : bool :=
+  existsb (fun s => match s with LFilter _ (LFilter _ _) => true | _ => false end) (subplans p).
+
+(** C08-K9: Cypher puts ORDER BY above RETURN; a property sort key is materialised as an extra
+    output column "x_k" *)
+Definition k9_cypher_order_cols (l : lang) (q : query) : bool :=
+  match l, q_order q with LCypher, _ :: _ => true | _, _ => false end.
+(** C08-K12: Cypher's count(expr) is planned as count-star (NULLs are counted) *)
+Definition k12_cypher_count (l : lang) (q : query) : bool :=
+  match l, q_ret q with
+  | LCypher, RAgg _ aggs => existsb (fun a => match ag_fn a, ag_arg a with
+                                             | (ACount | ACountNN), Some (EProp _ _) => true | _, _ => false end) aggs
+  | _, _ => false
+  end.
+
+(** C08-K13: min/max/avg results travel in Int64/Float64 vectors: every NULL after the first and
+    every non-integer (string, float) minimum becomes 0 *)
+Definition k13_typed_result (q : query) : bool :=
+  match q_ret q with
+  | RAgg _ aggs => existsb (fun a => match ag_fn a with AMin | AMax | AAvg => true | _ => false end) aggs
+  | _ => false
+  end.
+
+(** the same question in several languages: the row multisets (sequences) must agree *)
+Definition xlang_same (m : cmode) (obs : list obs) : bool :=
+  match obs with
+  | [] => true
+  | o :: r => forallb (fun o' => match o, o' with
+                                 | ObsRows _ a, ObsRows _ b => rows_match m a b
+                                 | _, _ => false end) r
+  end.
